@@ -8,6 +8,7 @@
 from pymtl3.passes.backends.generic.behavioral.BehavioralTranslatorL3 import (
     BehavioralTranslatorL3,
 )
+from pymtl3.passes.rtlir import BehavioralRTLIR as bir
 from pymtl3.passes.rtlir import RTLIRDataType as rdt
 from pymtl3.passes.rtlir import RTLIRType as rt
 
@@ -71,6 +72,10 @@ class BehavioralRTLIRToVVisitorL3( BehavioralRTLIRToVVisitorL2 ):
 
       if isinstance( node.value.Type.get_dtype(), rdt.Struct ):
         value = s.visit( node.value )
+        if isinstance( node.value, bir.FreeVar ):
+          # a member select is only legal on the constant itself, not on
+          # the size cast a free variable is read through
+          value = f"__const__{node.value.name}"
         attr = node.attr
         s.check_res( node, attr )
         dtype = node.Type.get_dtype()
